@@ -153,11 +153,19 @@ def oracle_real(ck, rng):
         img = ndi.gaussian_filter(img, 2.0)
         chunkings = [N, (22, 24, 20), (15, 16, 14), (7, 48, 9), (44, 5, 40)]
         for P, pname in ((LoGPicker(2.0 * scale), "LoG"), (DoGPicker(2.0 * scale, 3.0 * scale), "DoG")):
-            for dt in (np.float32, np.float64, np.uint8):
+            for dt in (np.float32, np.float64, np.uint8, "baseline"):
                 im = img if dt is not np.uint8 else np.clip(img * 200, 0, 255)
+                if dt == "baseline" and pname == "LoG":
+                    continue      # LoG keeps every maximum above 0: float rounding of a non-zero level (+-1e-6) is picked by design, nothing to demand
+                if dt == "baseline":
+                    # the same particles on a constant grey level (the pickers respond to blobs, not to the level): every chunking again
+                    im, dt = img + np.float32(10.0), np.float32
+                    base_ = True
+                else:
+                    base_ = False
                 ref = None
-                for ch in (chunkings if dt is np.float32 else chunkings[:2]):
-                    c = dict(picker=pname, dtype=np.dtype(dt).name, chunks=ch, scale=scale, points=pts)
+                for ch in (chunkings if (dt is np.float32) else chunkings[:2]):
+                    c = dict(picker=pname, dtype=np.dtype(dt).name, chunks=ch, scale=scale, points=pts, baseline=10.0 if base_ else 0.0)
                     try:
                         mol = P.pick_molecules(da.from_array(im.astype(dt), chunks=ch), scale)
                         got = sorted(tuple(np.round(np.asarray(q) / scale).astype(int)) for q in mol.pos)
@@ -280,6 +288,36 @@ def oracle_one_pick_per_particle(ck, rng):
                     ck.violation(what=f"{pname} picker (scale {scale}, one chunk): {len(pos)} molecules for {len(pts)} particles with flat-topped peaks along z, y, x; "
                                       f"not found at their midpoint: {miss}", inp={"particles": [list(p_) for p_ in pts], "scale": scale},
                                  key={"site": "tied-peaks", "picker": pname}, oracle="one_pick_per_particle")
+        # a filament-like template (a row of equally spaced blobs): its correlation has side lobes one period away; with min_distance (in nm)
+        # longer than a period every particle is still picked once, on fine voxels as well (min_distance / scale voxels)
+        for scale, axis in ((0.25, 2), (0.5, 1)):
+            ck.oracle_count("one_pick_per_particle", 1, 1)
+            tshape = [9, 9, 9]; tshape[axis] = 21
+            t = np.zeros(tshape, np.float32)
+            for x_ in (4, 8, 12, 16):
+                idx = [4, 4, 4]; idx[axis] = x_
+                t[tuple(idx)] = 1.0
+            t[2, 4, 4] = 0.6
+            from scipy import ndimage as ndi
+            t = ndi.gaussian_filter(t, 0.8)
+            dims = [40, 44, 48]; dims[axis] = 96
+            vol = rng.normal(0, 0.002, size=dims).astype(np.float32)
+            starts = [[4, 6, 6], [22, 28, 14], [12, 18, 30]]
+            for k_, st in enumerate(starts):
+                st[axis] = [4, 36, 70][k_]
+                vol[tuple(slice(a_, a_ + n_) for a_, n_ in zip(st, tshape))] += t
+            cen = [tuple(a_ + (n_ - 1) / 2 for a_, n_ in zip(st, tshape)) for st in starts]
+            try:
+                m = ZNCCTemplateMatcher(t).pick_molecules(vol if axis == 2 else da.from_array(vol, chunks=vol.shape), scale, min_distance=8 * scale, min_score=0.6)
+                pos = np.asarray(m.pos) / scale
+                bad = [c_ for c_ in cen if not len(pos) or int((np.linalg.norm(pos - np.array(c_), axis=1) <= 0.5).sum()) != 1]
+                detail = f"{len(pos)} molecules for {len(cen)} particles; not picked exactly once: {bad}" if (len(pos) != len(cen) or bad) else ""
+            except Exception as e:  # noqa
+                detail = f"raised {type(e).__name__}: {e}"
+            if detail:
+                ck.violation(what=f"ZNCC matcher, periodic template along axis {axis}, {scale} nm/voxel, min_distance {8 * scale} nm (two periods): {detail}",
+                             inp={"scale": scale, "axis": axis, "particles": [list(c_) for c_ in cen], "min_distance_nm": 8 * scale},
+                             key={"site": "min-distance-units"}, oracle="one_pick_per_particle")
         # template matching on coarse voxels: the default min_distance (1 nm) is below one voxel at 1.4 nm / voxel; smooth template = broad peaks
         zz, yy, xx = np.indices((11, 11, 11), dtype=np.float32)
         bead = lambda cz, cy, cx: np.exp(-((zz - cz) ** 2 + (yy - cy) ** 2 + (xx - cx) ** 2) / 2.0)
